@@ -870,3 +870,95 @@ fn state_cells<Q: Qx>(tag: &str, len: u64, desc: String, mk: impl Fn(u64) -> W51
     }));
     v
 }
+
+/// array spellings with parts at every scale gap: q += (x, [p1, p2, p3(, p4)]) where p2 lies g binades below / above p1
+/// for every g, p3 is zero / tiny / large, the parts come in all six orders, x and the parts have full fractions (last bit
+/// set), all-ones fractions or are powers of two. An implementation that pre-sums the parts of one coefficient in a
+/// narrow window, or aligns them relative to the first part, is exercised at every alignment.
+pub fn array_gaps<Q: Qx>(thorough: bool) -> Vec<CellDef> {
+    let n = <Q::P as Fx>::N;
+    let es = <Q::P as Fx>::ES;
+    let lim = (n as i32 - 2) * (1 << es) - 1;
+    let m: u32 = if n == 32 { u32::MAX } else { (1u32 << n) - 1 };
+    // product scales must stay inside the quire: |scale(x) + scale(p)| <= lim is always fine for these formats
+    let anchors: Vec<i32> = if thorough { vec![-lim / 2, -lim / 5, 0, lim / 6, lim / 3, lim / 2] } else { vec![-lim / 3, 0, lim / 3] };
+    let gaps: Vec<i32> = (-(2 * lim)..=(2 * lim)).collect();
+    let xs: Vec<u32> = {
+        let one = 1u32 << (n - 2);
+        vec![one | 1, one + (one >> 1), ((one << 1) - 1).wrapping_neg() & m]
+    };
+    let (na, ng, nx) = (anchors.len() as u64, gaps.len() as u64, xs.len() as u64);
+    // shape of the parts' fractions: 0 = power of two, 1 = lone last bit, 2 = all ones
+    let mk = move |scale: i32, shape: u64| -> Option<u32> {
+        if scale.abs() > lim {
+            return None;
+        }
+        build(n, es, scale, |nf| {
+            let full = if nf == 0 { 0 } else { ((1u64 << nf) - 1) as u32 };
+            match shape {
+                0 => 0,
+                1 => 1 & full,
+                _ => full,
+            }
+        })
+    };
+    const PERM: [[usize; 3]; 6] = [[0, 1, 2], [0, 2, 1], [1, 0, 2], [1, 2, 0], [2, 0, 1], [2, 1, 0]];
+    let len = na * ng * nx * 3 * 3 * 6 * 2;
+    vec![CellDef::new(
+        "C04",
+        format!("{}/array_gaps", Q::NAME),
+        Space::func(len, format!("{} anchors x {} gaps x {} x values x 3 fraction shapes x 3 third parts x 6 orders x {{[P;3], [P;4] with a cancelling fourth part}}", na, ng, nx), |i| i as u128),
+        move |k| {
+            let mut r = k as u64;
+            let four = r & 1 == 1;
+            r >>= 1;
+            let perm = PERM[(r % 6) as usize];
+            r /= 6;
+            let third = r % 3;
+            r /= 3;
+            let shape = r % 3;
+            r /= 3;
+            let x = xs[(r % nx) as usize];
+            r /= nx;
+            let g = gaps[(r % ng) as usize];
+            let a = anchors[(r / ng) as usize];
+            let (Some(p1), Some(p2)) = (mk(a, shape), mk(a - g, shape)) else { return Out::skip() };
+            let p3 = match third {
+                0 => 0,
+                1 => mk(-lim + 3, shape).unwrap_or(1),
+                _ => mk((a + 30).min(lim), shape).unwrap_or(p1).wrapping_neg() & m,
+            };
+            let base = [p1, p2, p3];
+            let parts: Vec<u32> = if four { vec![base[perm[0]], base[perm[1]], base[perm[2]], p1.wrapping_neg() & m] } else { vec![base[perm[0]], base[perm[1]], base[perm[2]]] };
+            // model
+            let mut s = M::Val(W512::ZERO);
+            for &p in &parts {
+                s = m_add::<Q>(s, prod::<Q>(x, p), true);
+            }
+            let px = p_of::<Q>(x);
+            let pp: Vec<Q::P> = parts.iter().map(|&p| p_of::<Q>(p)).collect();
+            let got = guard(|| {
+                let mut q = Q::init();
+                q.add_arr(px, &pp);
+                let mut seq = Q::init();
+                for &p in &pp {
+                    seq.add_prod(px, p);
+                }
+                let mut qs = Q::init();
+                qs.sub_arr(px, &pp);
+                let mut seqs = Q::init();
+                for &p in &pp {
+                    seqs.sub_prod(px, p);
+                }
+                (observe(&q), q.to_w() == seq.to_w() && qs.to_w() == seqs.to_w())
+            });
+            if s == M::Out {
+                return if vpcore::total_mode() { Out::executed(got.map(|g| g.0)) } else { Out::skip() };
+            }
+            match got {
+                Some((g, same)) => Out { ok: same && g == expect::<Q>(s), nt: true, got: g ^ ((!same) as u128) << 127, want: expect::<Q>(s), ops: 4, panicked: false },
+                None => Out::cmp(None, 0, true),
+            }
+        },
+    )]
+}
